@@ -29,15 +29,15 @@ ASSUME = [
 # which deviation excuses which property-level reading (printed by the trace spec as "Cxx:<reading>")
 EXCUSES = {
     "C13:LostOnePerDeath": ["StaleCompletion"], "C13:ViewExact": ["StaleCompletion"],
-    "C14:KeyExclusive": ["StaleCompletion"], "C14:KeyFifo": ["StaleCompletion"], "C14:OneAtATime": ["StaleCompletion"],
+    "C14:KeyExclusive": ["StaleCompletion", "ParkedJobNotSticky"], "C15:QueueBound": ["ClosedWorkerQueueOverLimit"], "C14:KeyFifo": ["StaleCompletion"], "C14:OneAtATime": ["StaleCompletion"],
     "C14:QueuerNoIdle": ["StaleCompletion"],
     "C15:PoolConverges": ["DrainingSlotReplaced", "StaleCompletion"], "C15:DrainComplete": ["StaleCompletion"],
 }
 
 MC_QUICK = {
-    "C13": ["queuer", "keyp", "drain", "custom"],
-    "C14": ["queuer", "sticky", "keyp", "rr", "custom"],
-    "C15": ["queuer", "drain", "rl", "rr", "keyp"],
+    "C13": ["queuer", "keyp", "drain", "custom", "keyp_stop"],
+    "C14": ["queuer", "sticky", "keyp", "rr", "custom", "keyp_stop", "sticky_stop"],
+    "C15": ["queuer", "drain", "rl", "rr", "keyp", "keyp_stop"],
 }
 MC_THOROUGH = {
     "C13": ["big_queuer", "big_keyp", "big_custom"],
@@ -46,9 +46,9 @@ MC_THOROUGH = {
 }
 # vacuity: each of these must be VIOLATED (the situation is reachable in the closed model)
 REACH = {
-    "C13": [("sticky", "NeverStale")],
-    "C14": [("sticky", "NeverStale"), ("sticky", "NeverExclBad")],
-    "C15": [("queuer", "NeverDrainingSlotReplaced"), ("drain", "NeverDrained")],
+    "C13": [("sticky", "NeverStale"), ("keyp_stop", "NeverClosing")],
+    "C14": [("sticky", "NeverStale"), ("sticky", "NeverExclBad"), ("keyp_stop", "NeverClosing"), ("sticky_stop", "NeverParked")],
+    "C15": [("queuer", "NeverDrainingSlotReplaced"), ("drain", "NeverDrained"), ("keyp_stop", "NeverClosedCastFails")],
 }
 
 
@@ -111,8 +111,7 @@ def _validate(module, cfg, trace, label, v, fam, lenient=True):
 
 
 def _validate_groups(trace, w, pid, v, chunk=400):
-    """The batch is validated scenario by scenario (random scenarios in chunks): validate_batch stops after a handful of
-    rejected runs, and one noisy scenario must not hide the others."""
+    """The batch is validated in chunks of whole scenarios."""
     groups, order = {}, []
     cur = None
     for ln in open(trace):
@@ -124,14 +123,12 @@ def _validate_groups(trace, w, pid, v, chunk=400):
             cur = groups[sc]
         if cur is not None:
             cur.append(ln)
-    # micro scenarios have many runs each; random scenarios have few: pool the small ones
+    # scenarios are pooled into files of about `chunk` runs (one JVM start each); validate_batch itself switches to
+    # lenient judging of the remainder after a few strict rejections, so a noisy scenario does not hide the others
     files, pool = [], []
     for sc in order:
         runs = sum(1 for l in groups[sc] if l.startswith('{"a":"reset"'))
-        if runs >= 20:
-            files.append(groups[sc])
-        else:
-            pool.append((runs, groups[sc]))
+        pool.append((runs, groups[sc]))
     acc, n = [], 0
     for runs, lines in pool:
         acc.extend(lines)
